@@ -640,6 +640,17 @@ loop:
 	for {
 		releaseHandled()
 
+		// After a GOAWAY that lets the open streams finish, the connection goes
+		// with the last of them, however that one came to its end. The checks
+		// further down only cover a handler reporting back and a frame on the
+		// stream itself: a response released by a connection-level
+		// WINDOW_UPDATE, a request timing out or the handler of a stream the
+		// peer had reset returning ended the last stream without ending the
+		// loop, and nothing else was going to.
+		if isClosing() && canCloseAfterGoAway() {
+			break loop
+		}
+
 		select {
 		case <-sc.closer:
 			break loop
